@@ -2200,6 +2200,33 @@ func (k *Kernel) handleReplayedHeader(
 		}
 	}
 
+	// Now ensure we have majority vote power,
+	// otherwise the replay cannot proceed.
+	var blockPow uint64
+	var bs bitset.BitSet
+	tempProofs[string(header.Hash)].SignatureBitSet(&bs)
+	for i, ok := bs.NextSet(0); ok && int(i) < len(header.ValidatorSet.Validators); i, ok = bs.NextSet(i + 1) {
+		blockPow += header.ValidatorSet.Validators[int(i)].Power
+	}
+
+	// Arguably we could update the precommit proofs now;
+	// they are valid but insufficient to commit.
+	// We are not doing that now because it still indicates
+	// an improper block replay source.
+
+	maj := tmconsensus.ByzantineMajority(s.Voting.VoteSummary.AvailablePower)
+	if blockPow < maj {
+		return tmelink.ReplayedHeaderValidationError{
+			Err: fmt.Errorf(
+				"needed at least %d vote power for block with hash %x, but only got %d",
+				maj, header.Hash, blockPow,
+			),
+		}
+	}
+
+	// Only now that the replay is known to be acceptable do we touch the voting view and the round store;
+	// a rejected replay must leave no trace.
+
 	// Now the voting view matches the height and round of the incoming replayed proof.
 	// It is possible that we already saw the incoming header and got stuck leading to a replay.
 	// Make sure we have only one copy.
@@ -2226,30 +2253,6 @@ func (k *Kernel) handleReplayedHeader(
 		}
 
 		s.Voting.ProposedHeaders = append(s.Voting.ProposedHeaders, fakePH)
-	}
-
-	// Now ensure we have majority vote power,
-	// otherwise the replay cannot proceed.
-	var blockPow uint64
-	var bs bitset.BitSet
-	tempProofs[string(header.Hash)].SignatureBitSet(&bs)
-	for i, ok := bs.NextSet(0); ok && int(i) < len(header.ValidatorSet.Validators); i, ok = bs.NextSet(i + 1) {
-		blockPow += header.ValidatorSet.Validators[int(i)].Power
-	}
-
-	// Arguably we could update the precommit proofs now;
-	// they are valid but insufficient to commit.
-	// We are not doing that now because it still indicates
-	// an improper block replay source.
-
-	maj := tmconsensus.ByzantineMajority(s.Voting.VoteSummary.AvailablePower)
-	if blockPow < maj {
-		return tmelink.ReplayedHeaderValidationError{
-			Err: fmt.Errorf(
-				"needed at least %d vote power for block with hash %x, but only got %d",
-				maj, header.Hash, blockPow,
-			),
-		}
 	}
 
 	// Store the updated proofs back into the long-lived local set.
